@@ -72,6 +72,287 @@ def _idx_shape(e: ast.AST, k: str) -> Tuple[str, List[str]]:
     return shape, others
 
 
+def _is_product_piece(t: str) -> bool:
+    """'({}) * ({})' (positional or numbered placeholders): the text of one product of the sum"""
+    import re as _re
+    try:
+        return nf(_re.sub(r"\{\d*\}", "q", t)) == nf("q*q") and len(_re.findall(r"\{\d*\}", t)) == 2
+    except SyntaxError:
+        return False
+
+
+class _Undecided(Exception):
+    pass
+
+
+def _count_under(fn: ast.AST, upto: ast.AST, expr: ast.AST, columns_positive: bool):
+    """Value of *expr* at statement *upto* of *fn* in terms of the two components R, C of matrix_size(), under the assumption
+    C >= 1 (a matrix) or C == 0 (a plain vector).  A partial evaluation over the sign of C: assignments are substituted, tests
+    on C are decided by the assumption, `max(C, 1)`, `C or 1`, `C if C > 0 else 1` fold.  None when the code leaves the fragment."""
+    R, C = ast.Name("__R", ast.Load()), (ast.Name("__C", ast.Load()) if columns_positive else ast.Constant(0))
+    env: Dict[str, object] = {}
+
+    def is_ms(e):
+        while isinstance(e, ast.Call) and call_name(e) in ("list", "tuple") and len(e.args) == 1:
+            e = e.args[0]
+        return isinstance(e, ast.Call) and call_name(e) == "matrix_size"
+
+    def const(e):
+        return e.value if isinstance(e, ast.Constant) and isinstance(e.value, (int, bool)) else None
+
+    def is_c(e):
+        return isinstance(e, ast.Name) and e.id == "__C"
+
+    def truth(e):
+        """True / False / None (unknown)"""
+        if const(e) is not None:
+            return bool(const(e))
+        if is_c(e):
+            return True
+        if isinstance(e, ast.UnaryOp) and isinstance(e.op, ast.Not):
+            t = truth(e.operand)
+            return None if t is None else not t
+        if isinstance(e, ast.Compare) and len(e.ops) == 1:
+            l, r, op = e.left, e.comparators[0], e.ops[0]
+            if const(l) is not None and const(r) is not None:
+                a, b = const(l), const(r)
+                return {ast.Lt: a < b, ast.LtE: a <= b, ast.Gt: a > b, ast.GtE: a >= b, ast.Eq: a == b, ast.NotEq: a != b}.get(type(op))
+            flip = {ast.Lt: ast.Gt, ast.LtE: ast.GtE, ast.Gt: ast.Lt, ast.GtE: ast.LtE, ast.Eq: ast.Eq, ast.NotEq: ast.NotEq}
+            if is_c(r) and const(l) is not None and type(op) in flip:
+                l, r, op = r, l, flip[type(op)]()
+            if is_c(l) and const(r) is not None:             # C >= 1
+                k = const(r)
+                if isinstance(op, ast.Lt):
+                    return False if k <= 1 else None
+                if isinstance(op, ast.LtE):
+                    return False if k <= 0 else None
+                if isinstance(op, ast.Gt):
+                    return True if k <= 0 else None
+                if isinstance(op, ast.GtE):
+                    return True if k <= 1 else None
+                if isinstance(op, ast.Eq):
+                    return False if k <= 0 else None
+                if isinstance(op, ast.NotEq):
+                    return True if k <= 0 else None
+        if isinstance(e, ast.BoolOp):
+            ts = [truth(v) for v in e.values]
+            if isinstance(e.op, ast.And):
+                return False if any(t is False for t in ts) else (True if all(t is True for t in ts) else None)
+            return True if any(t is True for t in ts) else (False if all(t is False for t in ts) else None)
+        return None
+
+    def ev(e):
+        if isinstance(e, ast.Name):
+            v = env.get(e.id, e)
+            if isinstance(v, list):
+                raise _Undecided()
+            return v
+        if isinstance(e, ast.Subscript) and isinstance(e.value, ast.Name) and isinstance(env.get(e.value.id), list) and const(e.slice) in (0, 1):
+            return env[e.value.id][const(e.slice)]
+        if isinstance(e, ast.Subscript) and is_ms(e.value) and const(e.slice) in (0, 1):
+            return [R, C][const(e.slice)]
+        if isinstance(e, ast.IfExp):
+            t = truth(ev(e.test))
+            if t is None:
+                raise _Undecided()
+            return ev(e.body if t else e.orelse)
+        if isinstance(e, ast.BoolOp) and isinstance(e.op, ast.Or) and len(e.values) == 2:
+            l = ev(e.values[0])
+            t = truth(l)
+            if t is None:
+                raise _Undecided()
+            return l if t else ev(e.values[1])
+        if isinstance(e, ast.Call) and call_name(e) == "max" and len(e.args) == 2 and not e.keywords:
+            a, b = ev(e.args[0]), ev(e.args[1])
+            if const(a) is not None and const(b) is not None:
+                return ast.Constant(max(const(a), const(b)))
+            for x, y in ((a, b), (b, a)):
+                if is_c(x) and const(y) is not None and const(y) <= 1:
+                    return x
+            raise _Undecided()
+        if isinstance(e, ast.Call) and call_name(e) == "int" and len(e.args) == 1:
+            return ev(e.args[0])
+        if isinstance(e, ast.BinOp) and isinstance(e.op, ast.Mult):
+            a, b = ev(e.left), ev(e.right)
+            for x, y in ((a, b), (b, a)):
+                if const(x) == 1:
+                    return y
+                if const(x) == 0:
+                    return ast.Constant(0)
+            return ast.BinOp(a, ast.Mult(), b)
+        if isinstance(e, ast.Compare) and len(e.ops) == 1:
+            return ast.Compare(ev(e.left), e.ops, [ev(e.comparators[0])])
+        if isinstance(e, ast.UnaryOp):
+            return ast.UnaryOp(e.op, ev(e.operand))
+        if isinstance(e, ast.Constant):
+            return e
+        raise _Undecided()
+
+    tracked = lambda: set(env)
+
+    def assigns_tracked(stmts):
+        for s_ in stmts:
+            for n in ast.walk(s_):
+                if isinstance(n, (ast.Assign, ast.AugAssign, ast.AnnAssign)):
+                    for t in (n.targets if isinstance(n, ast.Assign) else [n.target]):
+                        for x in ast.walk(t):
+                            if isinstance(x, ast.Name) and x.id in tracked():
+                                return True
+        return False
+
+    class _Stop(Exception):
+        pass
+
+    def run(stmts):
+        for s_ in stmts:
+            if s_ is upto or any(x is upto for x in ast.walk(s_)) and not isinstance(s_, (ast.If, ast.For, ast.While, ast.With, ast.Try)):
+                raise _Stop()
+            if isinstance(s_, ast.Assign) and len(s_.targets) == 1:
+                t, v = s_.targets[0], s_.value
+                if isinstance(t, ast.Name):
+                    if is_ms(v):
+                        env[t.id] = [R, C]
+                    else:
+                        try:
+                            env[t.id] = ev(v)
+                        except _Undecided:
+                            mentions = any(isinstance(x, ast.Name) and x.id in tracked() for x in ast.walk(v)) or any(is_ms(x) for x in ast.walk(v))
+                            if mentions or t.id in env:
+                                env[t.id] = ast.Name("__unknown_%s" % t.id, ast.Load())
+                    continue
+                if isinstance(t, (ast.Tuple, ast.List)) and len(t.elts) == 2 and all(isinstance(x, ast.Name) for x in t.elts):
+                    if is_ms(v):
+                        env[t.elts[0].id], env[t.elts[1].id] = R, C
+                        continue
+                    if isinstance(v, ast.Name) and isinstance(env.get(v.id), list):
+                        env[t.elts[0].id], env[t.elts[1].id] = env[v.id]
+                        continue
+                if isinstance(t, ast.Subscript) and isinstance(t.value, ast.Name) and isinstance(env.get(t.value.id), list) and const(t.slice) in (0, 1):
+                    lst = list(env[t.value.id])
+                    lst[const(t.slice)] = ev(v)
+                    env[t.value.id] = lst
+                    continue
+                if assigns_tracked([s_]):
+                    raise _Undecided()
+                continue
+            if isinstance(s_, ast.If):
+                try:
+                    t = truth(ev(s_.test))
+                except _Undecided:
+                    t = None
+                if t is None:
+                    if assigns_tracked(s_.body + s_.orelse):
+                        raise _Undecided()
+                    if any(x is upto for b_ in s_.body + s_.orelse for x in ast.walk(b_)):
+                        run(s_.body if any(x is upto for b_ in s_.body for x in ast.walk(b_)) else s_.orelse)
+                    continue
+                run(s_.body if t else s_.orelse)
+                continue
+            if isinstance(s_, (ast.For, ast.While, ast.With, ast.Try)):
+                if assigns_tracked([s_]):
+                    raise _Undecided()
+                if any(x is upto for x in ast.walk(s_)):
+                    raise _Undecided()
+                continue
+            if assigns_tracked([s_]):
+                raise _Undecided()
+
+    try:
+        try:
+            run(fn.body)
+        except _Stop:
+            pass
+        return ev(expr)
+    except _Undecided:
+        return None
+
+
+def _rank_rule(idx: Index, res: Result) -> None:
+    """ArrayRankOperator.term: the rendered text is sorted(<flat list of all members>, reverse=True)[(N-1 if (r < 0 or r > N) else r-1)]
+    with r the operator's rank and N the number of *all* members: rows x columns for a matrix, rows for a plain vector (whose column
+    count is 0).  Which placeholder plays which part is found by matching the template; N is decided by partial evaluation over the
+    sign of the column count."""
+    import itertools
+    import string as _string
+    from ..util import deref
+    rkf = idx.func(OPS, "ArrayRankOperator.term")
+    fmts = [c for c in iter_calls(rkf.node) if call_name(c) == "format" and isinstance(c.func.value, ast.Constant) and "sorted(" in str(c.func.value.value)]
+    if len(fmts) != 1:
+        raise AnalysisError("ArrayRankOperator.term: rank template not found")
+    call = fmts[0]
+    tmpl = call.func.value.value
+    kw = {k.arg: k.value for k in call.keywords}
+    fields: List[Optional[ast.AST]] = []
+    pieces: List[str] = []
+    auto = 0
+    try:
+        for lit, fld, spec, conv in _string.Formatter().parse(tmpl):
+            pieces.append(lit or "")
+            if fld is None:
+                continue
+            if fld == "":
+                fields.append(call.args[auto] if auto < len(call.args) else None)
+                auto += 1
+            elif fld.isdigit():
+                fields.append(call.args[int(fld)] if int(fld) < len(call.args) else None)
+            else:
+                fields.append(kw.get(fld))
+            pieces.append(None)
+    except ValueError:
+        fields = []
+    groups: List[str] = []
+    for f_ in fields:
+        t_ = src(f_) if f_ is not None else "?"
+        if t_ not in groups:
+            groups.append(t_)
+    want = nf("sorted(ARR, reverse=True)[(COUNT - 1 if (RANK < 0 or RANK > COUNT) else RANK - 1)]")
+    roles: Dict[str, ast.AST] = {}
+    if 3 <= len(groups) <= 4:
+        for assign in itertools.product(("ARR", "RANK", "COUNT"), repeat=len(groups)):
+            if set(assign) != {"ARR", "RANK", "COUNT"}:
+                continue
+            it = iter(fields)
+            text = ""
+            for pc in pieces:
+                if pc is None:
+                    f_ = next(it)
+                    text += assign[groups.index(src(f_) if f_ is not None else "?")]
+                else:
+                    text += pc
+            try:
+                if nf(text) == want:
+                    for g_, r_ in zip(groups, assign):
+                        roles.setdefault(r_, next(f_ for f_ in fields if f_ is not None and src(f_) == g_))
+                    break
+            except SyntaxError:
+                continue
+    res.check("AGG", "rank template = descending sort, rank-th entry, clamped to the smallest", bool(roles), rkf.loc(call), rkf.qual, tmpl[:110],
+              "the rank template is '%s' filled from %s" % (tmpl[:100], groups), key="AGG/ArrayRankOperator/template")
+    if not roles:
+        return
+    cnt = roles["COUNT"]
+    pos = _count_under(rkf.node, call, cnt, True)
+    zero = _count_under(rkf.node, call, cnt, False)
+    okp = pos is not None and nf(src(pos)) == nf("__R * __C")
+    res.check("AGG", "rank clamps against rows x columns", okp, rkf.loc(call), rkf.qual, "count=%s" % src(cnt),
+              "the rank is clamped against %s (for a matrix: %s), not against the number of all elements (rows x columns): on a matrix every rank "
+              "larger than that silently returns a different entry" % (src(cnt), src(pos).replace("__", "") if pos is not None else "undecided"),
+              key="AGG/ArrayRankOperator/count")
+    okz = zero is not None and src(zero) == "__R"
+    res.check("AGG", "a vector counts as one column", okz, rkf.loc(), rkf.qual, "count=%s" % src(cnt),
+              "the column count of a plain vector (0) is not replaced by 1: the element count of a vector would be %s"
+              % (src(zero).replace("__", "") if zero is not None else "undecided"), key="AGG/ArrayRankOperator/vector-columns")
+    arr = deref(rkf.node, roles["ARR"])
+    ok = isinstance(arr, ast.Call) and call_name(arr) == "_matrix_element_to_string" and len(arr.args) == 3 and src(arr.args[0]) == "self.element" \
+        and isinstance(arr.args[2], ast.Constant) and arr.args[2].value is True
+    res.check("AGG", "rank sorts the flat list of all elements", ok, rkf.loc(), rkf.qual, src(arr)[:80] if arr is not None else "",
+              "the rank does not sort the flattened element list", key="AGG/ArrayRankOperator/flat-list")
+    rk_ = deref(rkf.node, roles["RANK"])
+    okr = isinstance(rk_, ast.Attribute) and src(rk_) == "self.rank"
+    res.check("AGG", "rank argument is the operator's rank", okr, rkf.loc(), rkf.qual, src(roles["RANK"]),
+              "the rank placeholder is filled from %s" % src(rk_), key="AGG/ArrayRankOperator/rank-arg")
+
+
 def _reindex_rule(idx: Index, res: Result) -> None:
     """REINDEX: Operator.arrayed_term(index, time) renders the operand at *index* - the summation index of the enclosing dot product -
     whatever index the operand carried before (a clone made by clone_with_index carries the result index), and puts the previous
@@ -150,8 +431,13 @@ def check_c10(idx: Index, tier: str, res: Result) -> None:
     res.floor("element-wise operators whose term() walks the index", len(walked), 5)
 
     # ---- (b) guards of resolve_dimensions ------------------------------------------------------------
+    import dataclasses
+    from ..util import expand_aliases
     rd = idx.func(OPS, "DotOperator.resolve_dimensions")
     term = idx.func(OPS, "DotOperator.term")
+    # locals that merely name a path (row = self.index[0]) are written out: the rules below are phrased over dim1/dim2/self.index
+    rd = dataclasses.replace(rd, node=expand_aliases(rd.node))
+    term = dataclasses.replace(term, node=expand_aliases(term.node))
 
     CASES = {"scalar": dict(S1=True, S2=True, V1=False, V2=False), "s1": dict(S1=True, S2=False, V1=False, V2=False),
              "s2": dict(S1=False, S2=True, V1=False, V2=False), "vv": dict(S1=False, S2=False, V1=True, V2=True),
@@ -193,6 +479,10 @@ def check_c10(idx: Index, tier: str, res: Result) -> None:
             if not stmts:
                 return [(guards, None, env)]
             s0, rest = stmts[0], stmts[1:]
+            if on_loop is not None and isinstance(s0, (ast.Return, ast.Assign, ast.AugAssign, ast.Expr)):
+                for c_ in ast.walk(s0):                  # sep.join(piece for k in range(n)): the comprehension form of a loop
+                    if isinstance(c_, (ast.GeneratorExp, ast.ListComp)):
+                        on_loop(c_)
             if isinstance(s0, ast.Return):
                 return [(guards, ("return", " ".join(src(s0.value).split()), s0), env)]
             if isinstance(s0, ast.Raise):
@@ -210,7 +500,15 @@ def check_c10(idx: Index, tier: str, res: Result) -> None:
                 branches = []
                 if v is None and any(isinstance(x, ast.Raise) for x in s0.body):
                     # a guard: record it; the accepted run continues on the other side
-                    g2 = guards + [(" ".join(src(s0.test).split()), s0)]
+                    # conjuncts the shape case already decides (dim1 != -1 and ...) are not part of what the guard tests
+                    test_ = s0.test
+                    if isinstance(test_, ast.BoolOp) and isinstance(test_.op, ast.And):
+                        rest_ = [x for x in test_.values if evalb(x, env) is None]
+                        if len(rest_) == 1:
+                            test_ = rest_[0]
+                        elif rest_ and len(rest_) < len(test_.values):
+                            test_ = ast.BoolOp(ast.And(), rest_)
+                    g2 = guards + [(" ".join(src(test_).split()), s0)]
                     branches = [(s0.orelse, g2)]
                 elif v is None:
                     branches = [(s0.body, guards), (s0.orelse, guards)]
@@ -307,12 +605,23 @@ def check_c10(idx: Index, tier: str, res: Result) -> None:
         hit: Set[int] = set()
         case_paths(term, CASES[c_], on_loop=lambda l_, hit=hit: hit.add(id(l_)))
         loop_cases[c_] = hit
-    for lp in [n for n in walk_no_nested(term.node) if isinstance(n, ast.For)]:
+    from ..util import deref as _deref0
+    joins = {}
+    for c_ in iter_calls(term.node):
+        if call_name(c_) == "join" and isinstance(c_.func, ast.Attribute) and isinstance(c_.func.value, ast.Constant) and len(c_.args) == 1:
+            a_ = c_.args[0] if isinstance(c_.args[0], (ast.GeneratorExp, ast.ListComp)) else _deref0(term.node, c_.args[0])
+            if isinstance(a_, (ast.GeneratorExp, ast.ListComp)):
+                joins[id(a_)] = c_.func.value.value
+    loops = [n for n in walk_no_nested(term.node) if isinstance(n, ast.For)]
+    loops += [n for n in walk_no_nested(term.node) if isinstance(n, (ast.GeneratorExp, ast.ListComp)) and len(n.generators) == 1 and not n.generators[0].ifs]
+    for lp0 in loops:
+        is_comp = not isinstance(lp0, ast.For)
+        lp = lp0.generators[0] if is_comp else lp0
         if not (isinstance(lp.iter, ast.Call) and call_name(lp.iter) == "range" and isinstance(lp.target, ast.Name)):
             continue
         k = lp.target.id
         bound = " ".join(src(lp.iter.args[-1]).split())
-        calls = [c for c in iter_calls(lp) if call_name(c) in ("_get_sub_element_term", "term")]
+        calls = [c for c in iter_calls(lp0.elt if is_comp else lp0) if call_name(c) in ("_get_sub_element_term", "term")]
         subs = [c for c in calls if call_name(c) == "_get_sub_element_term"]
         if subs:
             if len(subs) != 2:
@@ -332,33 +641,43 @@ def check_c10(idx: Index, tier: str, res: Result) -> None:
             s1, o1, s2, o2 = "k", [], "k", []
         nloops += 1
         legal = LEGAL.get((s1, s2))
-        reach = sorted(c_ for c_ in ("vv", "vm", "mv", "mm") if id(lp) in loop_cases.get(c_, set()))
+        reach = sorted(c_ for c_ in ("vv", "vm", "mv", "mm") if id(lp0) in loop_cases.get(c_, set()))
         if len(reach) != 1:
-            raise AnalysisError("product loop at %s is reachable under the shape cases %s" % (term.loc(lp), reach))
+            raise AnalysisError("product loop at %s is reachable under the shape cases %s" % (term.loc(lp0), reach))
         where_case = reach[0]
         ok = legal is not None and legal[0] == where_case and bound in legal[1]
-        res.check("SUMIDX", "%s loop: A%s * B%s over range(%s)" % (where_case, s1, s2, bound), ok, term.loc(lp), term.qual,
-                  norm_stmt(lp)[:160],
+        res.check("SUMIDX", "%s loop: A%s * B%s over range(%s)" % (where_case, s1, s2, bound), ok, term.loc(lp0), term.qual,
+                  (src(lp0) if is_comp else norm_stmt(lp0))[:160],
                   "the %s product loop multiplies A[%s] by B[%s] over range(%s): numpy's %s product sums A[..k] * B[k..] over "
                   "the shared dimension %s" % (where_case, s1, s2, bound, where_case, sorted(LEGAL[{"vv": ("k", "k"), "vm": ("k", "kX"),
                                                                                               "mv": ("Xk", "k"), "mm": ("Xk", "kX")}[where_case]][1])),
                   key="SUMIDX/%s/A%s-B%s-%s" % (where_case, s1, s2, bound))
         if where_case == "mm" and ok:
             ok2 = o1 == ["self.index[0]"] and o2 == ["self.index[1]"]
-            res.check("SUMIDX", "mm loop: row from index[0], column from index[1]", ok2, term.loc(lp), term.qual, "%s / %s" % (o1, o2),
+            res.check("SUMIDX", "mm loop: row from index[0], column from index[1]", ok2, term.loc(lp0), term.qual, "%s / %s" % (o1, o2),
                       "matrix-matrix element (i,j) is computed from row %s and column %s" % (o1, o2), key="SUMIDX/mm/row-col")
         if where_case in ("vm", "mv") and ok:
             other = (o2 if where_case == "vm" else o1)
             ok2 = other == ["index"]
-            res.check("SUMIDX", "%s loop: free index is the operator's index" % where_case, ok2, term.loc(lp), term.qual, str(other),
+            res.check("SUMIDX", "%s loop: free index is the operator's index" % where_case, ok2, term.loc(lp0), term.qual, str(other),
                       "the free index of the %s product is %s" % (where_case, other), key="SUMIDX/%s/free-index" % where_case)
         seen_cases.add(where_case)
         # products are summed: the accumulated piece is "(a) * (b) + "
-        accs = [n for n in ast.walk(lp) if isinstance(n, ast.AugAssign) and isinstance(n.value, ast.Call) and call_name(n.value) == "format"]
-        okf = len(accs) == 1 and isinstance(accs[0].value.func.value, ast.Constant) and \
-            nf(accs[0].value.func.value.value.replace("{}", "q").rstrip().rstrip("+")) == nf("q*q")
-        res.check("SUMIDX", "%s loop sums products" % where_case, okf, term.loc(lp), term.qual,
-                  src(accs[0].value.func.value) if accs else "", "the loop does not accumulate '(a) * (b) + '", key="SUMIDX/%s/accumulate" % where_case)
+        if is_comp:
+            # ' + '.join('({}) * ({})'.format(a, b) for k in range(n))
+            piece = lp0.elt
+            okf = isinstance(piece, ast.Call) and call_name(piece) == "format" and isinstance(piece.func.value, ast.Constant) \
+                and isinstance(piece.func.value.value, str) and _is_product_piece(piece.func.value.value) \
+                and str(joins.get(id(lp0), "")).strip() == "+"
+            accs = []
+            shown = "%r.join(%s)" % (joins.get(id(lp0)), src(piece.func.value) if isinstance(piece, ast.Call) and isinstance(piece.func, ast.Attribute) else src(piece)[:40])
+        else:
+            accs = [n for n in ast.walk(lp0) if isinstance(n, ast.AugAssign) and isinstance(n.value, ast.Call) and call_name(n.value) == "format"]
+            okf = len(accs) == 1 and isinstance(accs[0].value.func.value, ast.Constant) and \
+                _is_product_piece(str(accs[0].value.func.value.value).rstrip().rstrip("+"))
+            shown = src(accs[0].value.func.value) if accs else ""
+        res.check("SUMIDX", "%s loop sums products" % where_case, okf, term.loc(lp0), term.qual,
+                  shown, "the loop does not accumulate '(a) * (b) + '", key="SUMIDX/%s/accumulate" % where_case)
     res.floor("product loops in DotOperator.term", nloops, 5)
     res.check("SUMIDX", "all four product forms present", seen_cases == {"vv", "vm", "mv", "mm"}, term.loc(), term.qual, str(sorted(seen_cases)),
               "product forms found: %s" % sorted(seen_cases), key="SUMIDX/forms")
@@ -383,58 +702,7 @@ def check_c10(idx: Index, tier: str, res: Result) -> None:
         ok = t.startswith("sorted([") and "reverse=True" in t and "-1" in t
         res.check("AGG", "rank = sorted descending [rank-1]", ok, r.fi.loc(), r.fi.qual, t[:120], "the rank template is %s" % t[:100],
                   key="AGG/ArrayRankOperator/shape")
-    # the rank's clamp must know the number of *all* elements (rows x columns), the list must be the flat element list
-    rkf = idx.func(OPS, "ArrayRankOperator.term")
-    fmts = [c for c in iter_calls(rkf.node) if call_name(c) == "format" and isinstance(c.func.value, ast.Constant) and "sorted(" in str(c.func.value.value)]
-    if len(fmts) != 1:
-        raise AnalysisError("ArrayRankOperator.term: rank template not found")
-    kw = {k.arg: k.value for k in fmts[0].keywords}
-    tmpl = fmts[0].func.value.value
-    try:
-        shape_ok = nf(tmpl.format(arr="ARR", rank="RANK", count="COUNT")) == nf("sorted(ARR, reverse=True)[(COUNT - 1 if (RANK < 0 or RANK > COUNT) else RANK - 1)]")
-    except (KeyError, IndexError, SyntaxError):
-        shape_ok = False
-    res.check("AGG", "rank template = descending sort, rank-th entry, clamped to the smallest", shape_ok, rkf.loc(fmts[0]), rkf.qual, tmpl[:110],
-              "the rank template is '%s'" % tmpl[:100], key="AGG/ArrayRankOperator/template")
-    assigns = {}
-    for n in walk_no_nested(rkf.node):
-        if isinstance(n, ast.Assign) and isinstance(n.targets[0], ast.Name):
-            assigns.setdefault(n.targets[0].id, []).append(n.value)
-
-    def resolve(e):
-        if isinstance(e, ast.Name) and len(assigns.get(e.id, [])) == 1:
-            return assigns[e.id][0]
-        return e
-    cnt = resolve(kw.get("count"))
-    ms = [k for k, v in assigns.items() if any(isinstance(x, ast.Call) and call_name(x) == "matrix_size" for x in v)]
-    # the two components of matrix_size(): size[0] / size[1], or the names it is unpacked into (rows, columns = ...matrix_size())
-    comp = {0: set(), 1: set()}
-    for m_ in ms:
-        comp[0].add("%s[0]" % m_)
-        comp[1].add("%s[1]" % m_)
-    for n in walk_no_nested(rkf.node):
-        if isinstance(n, ast.Assign) and isinstance(n.targets[0], (ast.Tuple, ast.List)) and len(n.targets[0].elts) == 2 \
-                and isinstance(n.value, ast.Call) and call_name(n.value) == "matrix_size" and all(isinstance(e, ast.Name) for e in n.targets[0].elts):
-            comp[0].add(n.targets[0].elts[0].id)
-            comp[1].add(n.targets[0].elts[1].id)
-            ms = ms or ["(%s, %s)" % (n.targets[0].elts[0].id, n.targets[0].elts[1].id)]
-    ok = cnt is not None and isinstance(cnt, ast.BinOp) and isinstance(cnt.op, ast.Mult) and (
-        (src(cnt.left) in comp[0] and src(cnt.right) in comp[1]) or (src(cnt.left) in comp[1] and src(cnt.right) in comp[0]))
-    res.check("AGG", "rank clamps against rows x columns", ok, rkf.loc(fmts[0]), rkf.qual, "count=%s" % (src(cnt) if cnt is not None else "?"),
-              "the rank is clamped against %s, not against the number of all elements (rows x columns): on a matrix every rank larger than "
-              "that silently returns a different entry" % (src(cnt) if cnt is not None else "?"), key="AGG/ArrayRankOperator/count")
-    fix = [g for g in walk_no_nested(rkf.node) if isinstance(g, ast.If) and any(src(g.test).replace(" ", "") in ("%s<=0" % c_, "%s<1" % c_, "%s==0" % c_) for c_ in comp[1])
-           and any(isinstance(b, ast.Assign) and src(b.targets[0]) in comp[1] and isinstance(b.value, ast.Constant) and b.value.value == 1 for b in g.body)]
-    res.check("AGG", "a vector counts as one column", bool(fix), rkf.loc(), rkf.qual, "if matrix_size[1] <= 0: matrix_size[1] = 1",
-              "the column count of a plain vector (0) is not replaced by 1: the element count of a vector would be 0", key="AGG/ArrayRankOperator/vector-columns")
-    arr = resolve(kw.get("arr"))
-    ok = isinstance(arr, ast.Call) and call_name(arr) == "_matrix_element_to_string" and len(arr.args) == 3 and src(arr.args[0]) == "self.element" \
-        and isinstance(arr.args[2], ast.Constant) and arr.args[2].value is True
-    res.check("AGG", "rank sorts the flat list of all elements", ok, rkf.loc(), rkf.qual, src(arr)[:80] if arr is not None else "",
-              "the rank does not sort the flattened element list", key="AGG/ArrayRankOperator/flat-list")
-    okr = isinstance(kw.get("rank"), ast.Attribute) and src(kw["rank"]) == "self.rank"
-    res.check("AGG", "rank argument is the operator's rank", okr, rkf.loc(), rkf.qual, src(kw.get("rank")) if kw.get("rank") is not None else "",
-              "the rank placeholder is filled from %s" % (src(kw.get("rank")) if kw.get("rank") is not None else "?"), key="AGG/ArrayRankOperator/rank-arg")
+    _rank_rule(idx, res)
     sz = idx.func(OPS, "ArraySizeOperator.term")
     ok = any(call_name(c) == "vector_size" for c in iter_calls(sz.node))
     res.check("AGG", "size = number of sub-elements", ok, sz.loc(), sz.qual, "vector_size()", "ArraySizeOperator does not report vector_size()",
